@@ -215,3 +215,52 @@ pub fn hostile(rng: &mut Rng, srv: &[u8]) -> Dgram {
         }
     }
 }
+
+
+/// "Stale receive buffer" probe: a valid 1500-byte request whose padding consists of useful
+/// words (draft-13 version numbers), followed by short framed messages that name NO version in
+/// their own bytes and whose value offsets point past their own end -- into where the previous,
+/// longer datagram's bytes would still lie in a reused receive buffer. None of the short ones is
+/// a well-formed request; none may be answered.
+pub fn stale_buffer_probe(rng: &mut Rng) -> (Vec<u8>, Vec<Vec<u8>>) {
+    use crate::refimpl::codec::*;
+    // A: framed {VER, NONC, ZZZZ=pattern} of 1500 bytes
+    let mut a = RefMsg::new();
+    a.set(VER, &DRAFT13.to_le_bytes());
+    a.set(NONC, &rng.bytes(32));
+    a.set(ZZZZ, &[]);
+    let base = 12 + a.encode().len();
+    let mut pad = Vec::new();
+    while pad.len() < 1500 - base {
+        pad.extend_from_slice(&DRAFT13.to_le_bytes());
+    }
+    pad.truncate(1500 - base);
+    a.set(ZZZZ, &pad);
+    let first = a.encode_framed();
+    // B variants: 1024 bytes, tags SIG, VER, NONC, ZZZZ, offsets beyond the 976-byte value area
+    let mut seconds = Vec::new();
+    for o1 in [980u32, 984, 1000, 1040, 1200, 1400] {
+        let mut b = Vec::new();
+        b.extend_from_slice(&4u32.to_le_bytes());
+        for o in [o1, o1 + 4, o1 + 36] {
+            b.extend_from_slice(&o.to_le_bytes());
+        }
+        for t in [SIG, VER, NONC, ZZZZ] {
+            b.extend_from_slice(&t.to_le_bytes());
+        }
+        b.resize(1024 - 12, 0x11);
+        seconds.push(frame(&b));
+        // classic flavour: SIG, NONC, PAD with NONC past the end
+        let mut c = Vec::new();
+        c.extend_from_slice(&3u32.to_le_bytes());
+        for o in [o1, o1 + 64] {
+            c.extend_from_slice(&o.to_le_bytes());
+        }
+        for t in [SIG, NONC, PAD] {
+            c.extend_from_slice(&t.to_le_bytes());
+        }
+        c.resize(1024, 0x22);
+        seconds.push(c);
+    }
+    (first, seconds)
+}
